@@ -34,6 +34,7 @@ static hrec_t* hfind(uint64_t key) {
 static void program_case(unsigned prog, int len, int big_ok) {
   if (!case_begin("random-program|history+twins", "program=%u len=%d dims=%s", prog, len, big_ok ? "all" : "<=1024")) return;
   g_case_aligned = 0;  // this property sweeps the alignments itself, per call
+  g_case_place = 0;
   rng_t* r = crng();
   memset(HT, 0, sizeof HT);
   // a small working set of (env, op, seed) triples so that equal arguments recur after unrelated calls
